@@ -289,6 +289,10 @@ def generate(spec_path, root, std_contracts_path=None):
     out.add("\n} // verus!\n\n" + "".join(tail_items) + unit.tail + "fn main() {}\n")
     text = out.text()
     scan = scan_assumptions(text)
+    # text that came from /repo (for "is this assumed contract actually used" in the evidence)
+    lines = text.split("\n")
+    extracted = "\n".join(l for n, l in enumerate(lines, 1) if n in out.map and out.map[n][4] in ("fn", "external"))
+    scan["used_assume_specification"] = [x for x in scan["assume_specification"] if re.split(r"::|>", x)[-1].strip() + "(" in extracted.replace(" (", "(")]
     return Generated(unit, text, out, fns, rules, scan)
 
 
